@@ -313,6 +313,17 @@ impl Visitor<Diagnostic> for RuleGraphReferenceableElements {
         node.recurse_visit(self)
     }
 
+    fn visit_structure_initialization_declaration(
+        &mut self,
+        node: &StructureInitializationDeclaration,
+    ) -> Result<Self::Value, Diagnostic> {
+        // A type declared as an initialized structure (`T : S := (a := 1)`) must
+        // have a node like every other declaration; otherwise it is not part of the
+        // sorted names and the declaration is dropped when merging back.
+        self.declarations.add_node(&node.type_name.name);
+        node.recurse_visit(self)
+    }
+
     fn visit_structure_declaration(
         &mut self,
         node: &StructureDeclaration,
